@@ -210,6 +210,14 @@ class ListField(Field):
         if not self.field or isinstance(self.field, AnyField):
             return value
 
+        if (
+            isinstance(value, ListProxy)
+            and value.cfg is cfg
+            and value.list_field is self
+        ):
+            # already this configuration's validated list for this field: its items know it
+            return value
+
         proxy = ListProxy(cfg, self, value)
         return proxy
 
